@@ -22,7 +22,7 @@ RULE = (
 )
 ASSUMPTIONS = [
     "reference NLL from vlib/refmodel.py; closed forms from vlib/refstats.py",
-    "closed-form comparison tolerance 1e-3 + 1e-5*q (SLSQP ftol 1e-6 / MIGRAD tol 0.1 on 2NLL); within "
+    "closed-form comparison tolerance 1e-3 (scipy) / 1e-2 (minuit, MIGRAD tolerance 0.1) + 1e-5*q; within "
     "1e-3 of the zeroing seam either branch is accepted",
 ]
 STATS = ["qmu", "qmu_tilde", "q0", "tmu", "tmu_tilde"]
@@ -205,7 +205,7 @@ def run_case(case, ctx):
             else:
                 qr, rc, ru, rraw = refstats.tmu_like(fam, mu, fdata)
             if rc is not None and ru is not None:
-                tol = (1e-3 if case["optimizer"] == "scipy" else 4e-3) + 1e-5 * qr
+                tol = (1e-3 if case["optimizer"] == "scipy" else 1e-2) + 1e-5 * qr
                 seam = (stat in ("qmu", "qmu_tilde") and abs(ru[0] - mu) < 1e-3) or (stat == "q0" and abs(ru[0]) < 1e-3)
                 if seam:
                     ok = qv <= max(0.0, rraw) + tol
